@@ -85,3 +85,54 @@ func VerifHarness_C02_NegControl() {
 	verifAssume(x < 1)
 	verifAssert(NormalisedTo8Bit(x) < 255, "negative control: N8(x) < 255 for x < 1 (wrong on purpose)")
 }
+
+// ---------------- C14 ----------------
+
+type verifColor struct{ r, g, b, a uint32 }
+
+func (c verifColor) RGBA() (uint32, uint32, uint32, uint32) { return c.r, c.g, c.b, c.a }
+
+// VerifHarness_C14_AlphaRoundTrip (bit-precise): quantising A/max gives back A for every
+// 16-bit and every 8-bit alpha.
+func VerifHarness_C14_AlphaRoundTrip() {
+	a16 := verifU16()
+	verifAssert(NormalisedTo16Bit(float32(a16)/65535) == a16, "N16(float32(A)/65535) != A")
+	a8 := verifU8()
+	verifAssert(NormalisedTo8Bit(float32(a8)/255) == a8, "N8(float32(A)/255) != A")
+	verifReach("alpha-roundtrip")
+}
+
+var verifC14Lo = 1
+var verifC14Hi = 65536
+var verifC14Step = 16
+
+// VerifHarness_C14_Premultiplied (reals with rounding-error variables, one scope per
+// alpha value): for every alpha a in [lo,hi) (step-th values plus the extremes in the
+// quick tier, all in the thorough tier) and every premultiplied channel r <= a
+// (symbolic), decoding with any table value t <= r/65535 (the table lemma, discharged
+// as ground obligations for all three tables) and re-quantising the premultiplied
+// linear value gives a channel <= a. With a concrete the arithmetic is linear.
+func VerifHarness_C14_Premultiplied() {
+	for a := verifC14Lo; a < verifC14Hi; a++ {
+		if a%verifC14Step != 0 && a > 4 && a < 65530 {
+			continue
+		}
+		verifPush()
+		r := verifU16()
+		verifAssume(r <= uint16(a))
+		t := verifF32()
+		verifAssume(verifAnd(t >= 0, t <= float32(r)/65535))
+		rgb, alpha := RGBFromEncoded(verifColor{uint32(r), uint32(r), uint32(r), uint32(a)}, func(uint16) float32 { return t })
+		out := rgb.ToLinearRGBA64(alpha)
+		verifAssert(float64(out.R) <= float64(a), "linearised premultiplied channel exceeds alpha")
+		verifPop()
+	}
+	verifReach("premultiplied")
+}
+
+// VerifHarness_C14_NegControl: deliberately wrong claim (alpha 8-bit round trip through
+// the 16-bit scale); must be reported as violated.
+func VerifHarness_C14_NegControl() {
+	a8 := verifU8()
+	verifAssert(NormalisedTo8Bit(float32(a8)/65535) == a8, "negative control: N8(A/65535) == A (wrong on purpose)")
+}
